@@ -101,6 +101,10 @@ func extractSevOvmfMetadata(guidBlockMap map[string][]byte, firmware []byte) ([]
 	if len(firmware) < offset {
 		return nil, fmt.Errorf("firmware is too small: found size %d < %d", len(firmware), offset)
 	}
+	if offset < abi.SizeofSevMetadata {
+		return nil, fmt.Errorf("SEV OVMF Metadata Offset is not large enough to contain the metadata header: %d < %d",
+			offset, abi.SizeofSevMetadata)
+	}
 	sevMetadata := abi.SevMetadataFromBytes(firmware[len(firmware)-offset:])
 
 	if sevMetadata.Signature != abi.SevSnpMetadataSignature {
